@@ -680,7 +680,7 @@ func c04Run(c *Ctx, qs []c04Req, only string) {
 	c.Run.Set("requests", int64(len(qs)))
 	c.Run.Set("evaluations", evals)
 	c.Run.Set("distinct_nontrivial", nrules)
-	c.Run.Set("rule", fmt.Sprintf("layer 1: for each of 6 value-list modifiers every ordered value list of length 1..%d over its alphabet (all permutations included) on three patterns; layer 2: the full product absent/representative-1/representative-2 over 9 modifier slots on three patterns; each rule against %d requests (6 URLs x 16 sources x 4 types; 3 hostnames x 3 DNS types x 6 client names x 5 client addresses x 5 tag sets); distinct_nontrivial = distinct rules accepted by the parser", maxVals, len(qs)))
+	c.Run.Set("rule", fmt.Sprintf("layer 1: for each of 6 value-list modifiers every ordered value list of length 1..%d over its alphabet (all permutations included) on three patterns; layer 2: the full product absent/representative-1/representative-2 over 9 modifier slots on three patterns; pattern-target layer: 15 patterns that spell out, embed or omit the scheme (plain, $match-case, $~match-case) against URL and hostname requests; each rule against %d requests (6 URLs x 16 sources x 4 types; 3 hostnames x 5 DNS types x 6 client names x 8 client addresses incl. IPv4-mapped x 5 tag sets; hexadecimal-looking host names); content-type layer: each of the 11 content-type modifiers alone, negated and in every ordered pair with the three sign combinations against a request of each of the 12 types; distinct_nontrivial = distinct rules accepted by the parser", maxVals, len(qs)))
 	c.Run.Set("exhaustive", exhaustive)
 	c.Run.Assumption("request fields (hostnames, third-party) are taken from rules.NewRequest; their correctness is property C17")
 	c.Run.Assumption("the pattern reference is the C03 mask automaton run on the URL, or on the bare hostname for hostname requests unless the pattern starts with ||, http://, https:// or ://")
